@@ -128,6 +128,10 @@ def gen_cases(ctx):
     for code, msg, d in itertools.product(codes, ['m', ''], [A, None, 0, [1]]):
         for base in BASES:
             yield dict(part='batcherr', error=dict(code=code, message=msg, data=d), base=base)
+    for depth in (50, 100, 200, 300, 450, 600, 750):
+        for shape in ('list', 'dict'):
+            for what in ('request', 'request-named', 'response', 'error', 'batchreq', 'batchresp'):
+                yield dict(part='deep', depth=depth, shape=shape, what=what)
 
 
 def mk_params(p):
@@ -429,7 +433,37 @@ def run_batcherr(c):
     fixpoint(x, y)
 
 
-RUN = dict(request=run_request, response=run_response, error=run_error, batchreq=run_batchreq, batchresp=run_batchresp,
+def run_deep(c):
+    """messages whose params / result / error data are nested far deeper than the values above (but well within what the JSON codec
+    handles): serialising, encoding (plain and through the library encoder), decoding and deserialising is still lossless"""
+    import json as _json
+    depth, shape, what = c['depth'], c['shape'], c['what']
+    text = ('[' * depth + '1' + ']' * depth) if shape == 'list' else ('{"a":' * depth + '1' + '}' * depth)
+    nest = _json.loads(text)
+    if what == 'request':
+        msg, back = Request('m', [nest], id=1), Request.from_json
+    elif what == 'request-named':
+        msg, back = Request('m', {'k': nest}, id='x'), Request.from_json
+    elif what == 'response':
+        msg, back = Response(id=1, result=nest), Response.from_json
+    elif what == 'error':
+        msg, back = Response(id=1, error=JsonRpcError(5, 'deep', data=nest)), Response.from_json
+    elif what == 'batchreq':
+        msg, back = BatchRequest(Request('m', [nest], id=1), Request('n', {'k': nest})), BatchRequest.from_json
+    else:
+        msg, back = BatchResponse(Response(id=1, result=nest), Response(id=2, error=JsonRpcError(5, 'deep', data=nest))), BatchResponse.from_json
+    w1 = msg.to_json()
+    t1 = _json.dumps(w1)
+    t2 = _json.dumps(msg, cls=pjrpc.common.JSONEncoder)
+    if t1 != t2:
+        raise Bad(('deep:the library encoder and to_json() give different texts', (depth, shape, what)))
+    again = back(_json.loads(t1))
+    t3 = _json.dumps(again.to_json())
+    if t3 != t1 or _json.dumps(nest) not in t1:
+        raise Bad(('deep:wire form changed by the round trip', (depth, shape, what)))
+
+
+RUN = dict(deep=run_deep, request=run_request, response=run_response, error=run_error, batchreq=run_batchreq, batchresp=run_batchresp,
            batcherr=run_batcherr)
 
 
@@ -451,7 +485,7 @@ def run_case(case, rec):
     rec.states += 1
     rec.transitions += 4      # two encodings, one decode, one re-encode
     rec.traces += 1
-    if case['part'] in ('error', 'batchresp', 'batcherr') or 'error' in case or case.get('params') not in ('<none>', [], {}):
+    if case['part'] in ('error', 'batchresp', 'batcherr', 'deep') or 'error' in case or case.get('params') not in ('<none>', [], {}):
         rec.nontrivial_n += 1
     return obs
 
